@@ -3,8 +3,15 @@
    subject of these lemmas, and if one no longer holds the build of every property that needs
    it fails. *)
 From Coq Require Import List NArith Bool String.
-From Verif Require Import Base.Text Gen.GenTokens Model.Lexer.
+From Verif Require Import Base.Text Gen.GenPipeline Gen.GenTokens Model.Lexer.
 Import ListNotations.
+
+(* the steps between the caller's text and the tokens are exactly the ones Model/Lexer.v composes in
+   [preprocess] and [tokenize_program] (the translator refuses any other shape of those functions) *)
+Lemma gen_pipeline_steps :
+  preprocess_steps = ["remove_oscat_comment"%string] /\
+  tokenize_program_steps = ["preprocess"; "tokenize"; "insert_keyword_statement_terminators"]%string.
+Proof. split; reflexivity. Qed.
 
 (* every regular expression in token.rs is one of the patterns the lexer model implements *)
 Definition regexes_known : bool :=
